@@ -2425,6 +2425,9 @@ class CPlanT {
 	friend class R_;
 
 	template <typename>
+	friend class ConstControlT;
+
+	template <typename>
 	friend class ControlT;
 
 	template <typename>
